@@ -123,6 +123,26 @@ fn content(seed: u64, label: &str, compressible: bool, want_big: bool) -> Vec<u8
     v
 }
 
+/// Storage class of the j-th starting file (chosen by TLC, see Gen_MpqHashTable `initcls`): 0 small compressed;
+/// 1..6 longer than a 16 KiB sector (sectored by the builder) x {compressible, incompressible} x {plain, encrypted, fix-key}.
+fn init_class(c: &Value, j: usize) -> i64 {
+    c.get("initcls").and_then(|x| x.as_array()).and_then(|a| a.get(j)).and_then(|x| x.as_i64()).unwrap_or(0)
+}
+fn init_content(seed: u64, case: &str, n: &str, cls: i64) -> Vec<u8> {
+    let label = format!("{case}:init:{n}");
+    if cls == 0 {
+        return content(seed, &label, true, false);
+    }
+    let mut rng = Rng::derive(seed, &label);
+    let len = rng.range(17_000, 70_000) as usize;
+    let mut v = gen_content(if cls % 2 == 1 { "text" } else { "random" }, len, &mut rng);
+    let t = tok(label.as_bytes());
+    for (i, b) in t.bytes().take(6).enumerate() {
+        v[i] = b;
+    }
+    v
+}
+
 struct Start {
     slack_bytes: i64,
     hsize: u64,
@@ -147,9 +167,15 @@ fn build_start(path: &Path, c: &Value, uni: &Uni, seed: u64, case: &str) -> Resu
             .version(version(ver))
             .listfile_option(if lf { ListfileOption::Generate } else { ListfileOption::None })
             .attributes_option(if at { AttributesOption::GenerateCrc32 } else { AttributesOption::None });
-        for n in &init {
-            let data = content(seed, &format!("{case}:init:{n}"), true, false);
-            b = b.add_file_data(data, uni.conc_of(n));
+        for (j, n) in init.iter().enumerate() {
+            let cls = init_class(c, j);
+            let data = init_content(seed, case, n, cls);
+            let comp = wow_mpq::compression::flags::ZLIB;
+            b = match cls {
+                3 | 4 => b.add_file_data_with_options(data, uni.conc_of(n), comp, true, 0),
+                5 | 6 => b.add_file_data_with_encryption(data, uni.conc_of(n), comp, true, 0),
+                _ => b.add_file_data_with_options(data, uni.conc_of(n), comp, false, 0),
+            };
         }
         let mut prng = Rng::derive(seed, &format!("{case}:pad"));
         let pad = prng.bytes(pad_len);
@@ -424,8 +450,8 @@ fn run_history(cx: &Ctx, c: &Value, dir: &Path, seed: u64) {
     };
     // content values by token key ("i:<name>" = what the starting archive holds)
     let mut by_key: std::collections::HashMap<String, Vec<u8>> = std::collections::HashMap::new();
-    for n in &init {
-        by_key.insert(format!("i:{n}"), content(seed, &format!("{case}:init:{n}"), true, false));
+    for (j, n) in init.iter().enumerate() {
+        by_key.insert(format!("i:{n}"), init_content(seed, &case, n, init_class(c, j)));
     }
     let mut alive = open(cx, &mut m, 0);
     let mut ck = 0usize;
